@@ -236,7 +236,7 @@ class SBytes(V):
     __slots__ = ("cell", "mutable")
 
     def __init__(self, t, mutable=False):
-        self.cell = [t]
+        self.cell = [t, t]  # [current, initial]
         self.mutable = mutable
 
     @property
@@ -319,6 +319,7 @@ class ZVal(V):
 class Cell:
     def __init__(self, t):
         self._t = t
+        self.init = t  # value at creation (pre-state of lazily created inputs)
 
     def get(self):
         return self._t
@@ -373,7 +374,7 @@ class LDict(V):
 
 class SObj(V):
     kind = "obj"
-    __slots__ = ("addr", "cands", "fields", "name", "lazy", "live", "ghost")
+    __slots__ = ("addr", "cands", "fields", "name", "lazy", "live", "ghost", "init")
 
     def __init__(self, addr, cands, name, lazy, live=None):
         self.addr = addr  # z3 Int term
@@ -383,6 +384,7 @@ class SObj(V):
         self.lazy = lazy  # unknown fields are created on demand
         self.live = live  # reflected live object (module-level constants)
         self.ghost = {}
+        self.init = {}  # field -> value at lazy creation (pre-state)
 
     def __repr__(self):
         return f"SObj({self.name}:{'|'.join(c.__name__ for c in self.cands[:3])})"
